@@ -233,13 +233,50 @@ EXTRA = {
     "always-expr-reads-slice-of-process-intermediate": (True, ["t = self.i | self.xin", "self.o0 <<= cohdl.always(t[1:0] | self.i)"]),
     "always-block-reads-process-intermediate": (True, ["t = self.i | self.xin", "with cohdl.always:", "    self.o0 <<= t"]),
     "always-block-reads-bit-of-process-intermediate": (True, ["t = self.i | self.xin", "with cohdl.always:", "    self.o0[0] <<= t[1]"]),
+    # distinct objects whose names differ only by leading / trailing underscores: each has its own single driver
+    "underscore-twin-objects": (False, """from cohdl import std, Entity, Port, Bit, BitVector, Unsigned, Signal, Variable
+import cohdl
+class T(Entity):
+    clk = Port.input(Bit)
+    i = Port.input(BitVector[2])
+    xin = Port.input(BitVector[2])
+    o0 = Port.output(BitVector[2], default='00')
+    o1 = Port.output(BitVector[2], default='00')
+    def architecture(self):
+        q = Signal[BitVector[2]]('00', name='q')
+        _q = Signal[BitVector[2]]('00', name='_q')
+        q_ = Signal[BitVector[2]]('00', name='q_')
+        def helper(src):
+            _reg = Signal[BitVector[2]]('00')
+            @std.sequential(std.Clock(self.clk))
+            def proc_helper():
+                nonlocal _reg
+                _reg <<= src
+            return _reg
+        r0 = helper(self.i)
+        r1 = helper(self.xin)
+        @std.sequential(std.Clock(self.clk))
+        def sa():
+            nonlocal q
+            q <<= self.i
+        @std.sequential(std.Clock(self.clk))
+        def sb():
+            nonlocal _q
+            _q <<= ~self.i
+        @std.concurrent
+        def ca():
+            nonlocal q_
+            q_ <<= self.xin
+            self.o0 <<= q ^ _q ^ r0
+            self.o1 <<= q_ ^ r1
+"""),
     "process-reads-always-block-intermediate": (False, ["with cohdl.always:", "    t = self.i | self.xin", "self.o1 <<= t", "self.o0[0] <<= t[1]"]),
 }
 
 
 def analyse_extra(name):
     must, body = EXTRA[name]
-    src = XHDR + "".join("            " + l + "\n" for l in body)
+    src = body if isinstance(body, str) else XHDR + "".join("            " + l + "\n" for l in body)
     res, _ = compile_source(src)
     if not res.ok:
         return {"status": "rejected", "must": must, "error": res.error}
